@@ -173,7 +173,7 @@ def explore(chk, prog, depth=7, max_live=3, max_handles=3):
     def check(val, ghost, trail):
         vec = val[3][si]
         items = vec[1] if vec[0] == "vec" else ()
-        for (idx, ptr, h) in ghost:
+        for (idx, ptr, h, _tok) in ghost:
             # representation-independent: the slot at the handle's index is a variant that holds the stashed pointer
             ok = idx < len(items) and items[idx][0] == "adt" and ptr in items[idx][3]
             if not ok:
@@ -194,10 +194,11 @@ def explore(chk, prog, depth=7, max_live=3, max_handles=3):
         ops = []
         if len(ghost) < max_live:
             ops.append(("add", None))
-        for (idx, ptr, h) in ghost:
+        for (idx, ptr, h, tok) in ghost:
             if h < max_handles:
                 ops.append(("inc", idx))
             ops.append(("dec", idx))
+        toks = {idx: tok for (idx, _p, _h, tok) in ghost}
         for (op, idx) in ops:
             st = State()
             st.mem[("slots",)] = val
@@ -206,7 +207,7 @@ def explore(chk, prog, depth=7, max_live=3, max_handles=3):
                     p = fresh[len(trail)]
                     outs = ip.run(k["add"], [ref(("slots",), ()), p], st)
                 else:
-                    outs = ip.run(k[op], [ref(("slots",), ()), I(idx)], st)
+                    outs = ip.run(k[op], [ref(("slots",), ()), toks[idx]], st)
             except (interp.Unmodelled, interp.InterpError, IndexError) as e:
                 probs.setdefault("could not be analysed: %s" % e, trail + ((op, idx),))
                 continue
@@ -220,16 +221,20 @@ def explore(chk, prog, depth=7, max_live=3, max_handles=3):
             nv = o.st.mem[("slots",)]
             g = list(ghost)
             if op == "add":
-                ni = o.value[1] if o.value[0] == "i" else None
-                if ni is None or any(i == ni for (i, _, _) in g):
+                tok = o.value
+                # the slot the token stands for: where the freshly stashed (unique) pointer sits
+                vec = nv[3][si]
+                at = [i for i, it in enumerate(vec[1] if vec[0] == "vec" else ()) if it[0] == "adt" and fresh[len(trail)] in it[3]]
+                ni = at[0] if len(at) == 1 else None
+                if ni is None or any(i == ni or tk == tok for (i, _, _, tk) in g):
                     probs.setdefault("add returned the index of a live handle (%s): slot reuse changes what a live handle "
-                                     "resolves to" % ni, t2)
+                                     "resolves to" % (ni if ni is not None else _short_tok(tok)), t2)
                     continue
-                g.append((ni, fresh[len(trail)], 1))
+                g.append((ni, fresh[len(trail)], 1, tok))
             elif op == "inc":
-                g = [(i, p_, h + 1) if i == idx else (i, p_, h) for (i, p_, h) in g]
+                g = [(i, p_, h + 1, tk) if i == idx else (i, p_, h, tk) for (i, p_, h, tk) in g]
             else:
-                g = [(i, p_, h - 1) if i == idx else (i, p_, h) for (i, p_, h) in g]
+                g = [(i, p_, h - 1, tk) if i == idx else (i, p_, h, tk) for (i, p_, h, tk) in g]
                 g = [x for x in g if x[2] > 0]
             g = tuple(sorted(g))
             check(nv, g, t2)
@@ -242,6 +247,10 @@ def explore(chk, prog, depth=7, max_live=3, max_handles=3):
         chk.inst("slot-reachability", "all-reachable-slot-tables", True,
                  sample={"states": nstates, "transitions": ntrans, "depth": depth, "max_live_slots": max_live})
     chk.extra["slot_reachability"] = {"states": nstates, "transitions": ntrans, "depth": depth}
+
+
+def _short_tok(t):
+    return str(t)[:60]
 
 
 def run_tables(chk, prog, config="default", maxlen=3):
